@@ -478,6 +478,7 @@ Proof.
   destruct (cache_get (native_cache st) name); [apply good_refl; exact HI|].
   pose proof (load_native_good st name HI) as G. destruct (load_native nat_reg st name) as [st1 r]. cbn [fst] in G.
   destruct r as [m| | | |]; try exact G.
+  destruct (mem_zs (registered_name st1 m) (n_loader_throws nat_reg)); [exact G|].
   remember (run_lazies rq st1 loader_file (assoc_reqs (n_loader_reqs nat_reg) (registered_name st1 m))) as rl eqn:ERL.
   assert (G3 : good st1 (fst rl)) by (rewrite ERL; apply run_lazies_good; exact (proj1 G)).
   destruct rl as [st2 oof]. cbn [fst] in *. exact (good_trans _ _ _ G G3).
